@@ -239,8 +239,8 @@ func TestVerifC42Parts(t *testing.T) {
 	opRegisterEnv(t)
 	scheme := opScheme(t)
 	ctx := context.Background()
-	n := r.N(60, 1000)
-	nFault := r.N(5, 80) // the first directed case and the first generated ones also get the fault enumeration
+	n := r.N(45, 1000)
+	nFault := r.N(3, 80) // the first directed case and the first generated ones also get the fault enumeration
 	for ci := 0; ci < n; ci++ {
 		rng := r.Rand(ci)
 		env := opGenEnv(rng)
@@ -339,7 +339,7 @@ func TestVerifC42Parts(t *testing.T) {
 	r.Floor("later_passes_judged", int64(2*n*9/10))
 	r.Floor("fresh_renders_compared", int64(2*n*9/10))
 	r.Floor("fault_recoveries_judged", int64(nFault*10))
-	r.Floor("cases_lfs_enabled", 10)
+	r.Floor("cases_lfs_enabled", 5)
 	r.Floor("cases_with_operator_env", 10)
 	r.Floor("pass1_creates", int64(5*n))
 }
@@ -359,7 +359,7 @@ func TestVerifC42Full(t *testing.T) {
 	defer cli.Close()
 	scheme := opScheme(t)
 	ctx := context.Background()
-	n := r.N(40, 500)
+	n := r.N(30, 500)
 	for ci := 0; ci < n; ci++ {
 		rng := r.Rand(ci)
 		env := opGenEnv(rng)
